@@ -64,6 +64,7 @@ type G struct {
 	stats  map[string]int
 	pool   []*ty.Val
 	nanSeq uint64 // payload counter of the NaN leaves
+	keyed  bool   // the current type is outside the Lean models (pointer-keyed maps): ops deepcopyk / clonek
 }
 
 // reg emits a registration of op `name` for the current type: `body` computes a string from x, y…
@@ -121,6 +122,9 @@ func (g *G) withViews(f func(x, view *ty.Val)) {
 }
 
 func (g *G) withMutations(f func(x, mu *ty.Val)) {
+	if g.keyed {
+		return // a mutated key pointee may coincide with another key's: the canonical form sorts entries by the printed key
+	}
 	for _, a := range g.pool {
 		x := g.vg.Inst(a)
 		for _, mu := range g.vg.Mutations(g.t, x, 8) {
@@ -488,6 +492,80 @@ func sharesKey(a, b *ty.Val) bool {
 	return false
 }
 
+// cop / creg: the copy ops of a type outside the Lean models (g.keyed: maps with pointer keys) go by the names
+// deepcopyk / clonek, which the driver answers with `unmodelled` and the check judges on the Go side alone; calls outside
+// the property's precondition (deepcopyx) are correspondence-only and are left out there.
+func (g *G) cop(name, tyname string, args ...string) {
+	if g.keyed {
+		if name == "deepcopyx" {
+			return
+		}
+		name += "k"
+	}
+	g.ow.op(name, tyname, args...)
+}
+
+func (g *G) creg(name string, nargs int, body string) {
+	if g.keyed {
+		if name == "deepcopyx" {
+			return
+		}
+		name += "k"
+	}
+	g.reg(name, nargs, body)
+}
+
+// withDeepPtrs returns a copy of v (a value of type t) in which every pointer whose target type is again a pointer
+// (**T, *N with `type N *T`), other than the top-level value itself, is non-nil at both levels: a nil outer pointer
+// becomes a pointer to a pointer to the last pool value of the innermost type, a nil inner one likewise.
+func (g *G) withDeepPtrs(t *ty.Ty, v *ty.Val, top bool) (*ty.Val, bool) {
+	u := g.env.Under(t)
+	c := *v
+	c.Elems = append([]*ty.Val(nil), v.Elems...)
+	changed := false
+	sub := func(i int, et *ty.Ty) {
+		if nv, ch := g.withDeepPtrs(et, c.Elems[i], false); ch {
+			c.Elems[i], changed = nv, true
+		}
+	}
+	switch u.K {
+	case ty.Ptr:
+		if iu := g.env.Under(u.Elem); iu.K == ty.Ptr && !top {
+			ip := g.vg.Pool(iu.Elem)
+			inner := &ty.Val{K: ty.VPtr, Elems: []*ty.Val{ip[len(ip)-1]}}
+			switch {
+			case v.K != ty.VPtr:
+				return &ty.Val{K: ty.VPtr, Elems: []*ty.Val{inner}}, true
+			case v.Elems[0].K != ty.VPtr:
+				c.Elems[0], changed = inner, true
+				return &c, true
+			}
+		}
+		if v.K == ty.VPtr {
+			sub(0, u.Elem)
+		}
+	case ty.Slice, ty.Array:
+		if v.K == ty.VSlice || v.K == ty.VArr {
+			for i := range c.Elems {
+				sub(i, u.Elem)
+			}
+		}
+	case ty.Struct:
+		if v.K == ty.VStruct {
+			for i, f := range u.Fields {
+				sub(i, f.T)
+			}
+		}
+	case ty.Map:
+		if v.K == ty.VMap {
+			for i := 1; i < len(c.Elems); i += 2 {
+				sub(i, u.Elem)
+			}
+		}
+	}
+	return &c, changed
+}
+
 func (g *G) emitDeepCopy() {
 	i, gt, q := g.i, g.gtq, g.q
 	fmt.Fprintf(q, "\nfunc DeepCopy_%d(dst, src %s) { deriveDeepCopy_%d(dst, src) }\n", i, gt, i)
@@ -499,8 +577,8 @@ func (g *G) emitDeepCopy() {
 		o.SetSide(1)
 		sd := o.Observe(vy)
 		return rt.CopyAnswer(sd, reflect.DeepEqual(x, y), rt.ShapeEqual(x, y), o.Overlaps(0, 1), s0 == rt.NewObs().Observe(vx))`, g.qn, i)
-	g.reg("deepcopy", 2, body)
-	g.reg("deepcopyx", 2, body)
+	g.creg("deepcopy", 2, body)
+	g.creg("deepcopyx", 2, body)
 	for _, a := range g.pool {
 		src := g.vg.Inst(a)
 		for _, d := range g.priors(src) {
@@ -508,7 +586,7 @@ func (g *G) emitDeepCopy() {
 			if src.K == ty.VNil {
 				name = "deepcopyx" // outside the property's precondition: correspondence only
 			}
-			g.ow.op(name, g.tn, src.Wire(), d.Wire())
+			g.cop(name, g.tn, src.Wire(), d.Wire())
 		}
 		// a source whose float-keyed maps hold a NaN key: the entry copied under it can never be looked up again
 		// (two NaN keys of different payloads, holding different values where the pool of the element type has two)
@@ -517,7 +595,7 @@ func (g *G) emitDeepCopy() {
 			ps := g.priors(nsrc)
 			for k, d := range ps {
 				if k < 2 || k == len(ps)-1 {
-					g.ow.op("deepcopy", g.tn, nsrc.Wire(), d.Wire())
+					g.cop("deepcopy", g.tn, nsrc.Wire(), d.Wire())
 					g.stats["c05:deepcopy-nan-key-source"]++
 				}
 			}
@@ -527,8 +605,18 @@ func (g *G) emitDeepCopy() {
 			nsrc := g.vg.Inst(nv)
 			for k, d := range g.priors(nsrc) {
 				if k < 2 {
-					g.ow.op("deepcopy", g.tn, nsrc.Wire(), d.Wire())
+					g.cop("deepcopy", g.tn, nsrc.Wire(), d.Wire())
 					g.stats["c05:deepcopy-nan-leaf-source"]++
+				}
+			}
+		}
+		// a source in which every pointer to a pointer below the top level is non-nil at BOTH levels
+		if nv, changed := g.withDeepPtrs(g.t, a, true); changed {
+			nsrc := g.vg.Inst(nv)
+			for k, d := range g.priors(nsrc) {
+				if k < 2 {
+					g.cop("deepcopy", g.tn, nsrc.Wire(), d.Wire())
+					g.stats["c05:deepcopy-ptrptr-source"]++
 				}
 			}
 		}
@@ -546,11 +634,11 @@ func (g *G) emitDeepCopy() {
 				if b.K != ty.VMap || len(b.Elems) == 0 || !sharesKey(a, b) {
 					continue
 				}
-				g.ow.op("deepcopyx", g.tn, g.vg.Inst(a).Wire(), g.vg.Inst(b).Wire())
+				g.cop("deepcopyx", g.tn, g.vg.Inst(a).Wire(), g.vg.Inst(b).Wire())
 				g.stats["c05:deepcopyx-populated-prior"]++
 				if na, changed := g.withNaNKeysN(g.t, a, 2, 1); changed && n == 0 {
 					nb, _ := g.withNaNKeysN(g.t, b, 1, 3)
-					g.ow.op("deepcopyx", g.tn, g.vg.Inst(na).Wire(), g.vg.Inst(nb).Wire())
+					g.cop("deepcopyx", g.tn, g.vg.Inst(na).Wire(), g.vg.Inst(nb).Wire())
 					g.stats["c05:deepcopyx-populated-prior"]++
 					g.stats["c05:deepcopyx-populated-prior-nan-keys"]++
 				}
@@ -569,7 +657,7 @@ func (g *G) emitDeepCopy() {
 			long, ch1 := g.withLongSlices(u.Elem, base)
 			short, ch2 := g.withShortSlices(u.Elem, base)
 			if ch1 && ch2 {
-				g.ow.op("deepcopy", g.tn, g.vg.Inst(&ty.Val{K: ty.VPtr, Elems: []*ty.Val{long}}).Wire(), g.vg.Inst(&ty.Val{K: ty.VPtr, Elems: []*ty.Val{short}}).Wire())
+				g.cop("deepcopy", g.tn, g.vg.Inst(&ty.Val{K: ty.VPtr, Elems: []*ty.Val{long}}).Wire(), g.vg.Inst(&ty.Val{K: ty.VPtr, Elems: []*ty.Val{short}}).Wire())
 				g.stats["c05:deepcopy-grow-into-spare"]++
 			}
 		}
@@ -577,7 +665,7 @@ func (g *G) emitDeepCopy() {
 	g.withMutations(func(x, mu *ty.Val) {
 		for _, d := range g.priors(mu) {
 			if mu.K != ty.VNil {
-				g.ow.op("deepcopy", g.tn, mu.Wire(), d.Wire())
+				g.cop("deepcopy", g.tn, mu.Wire(), d.Wire())
 			}
 			break
 		}
@@ -596,20 +684,24 @@ func (g *G) emitClone() {
 		o.SetSide(1)
 		sd := o.Observe(vy)
 		return rt.CopyAnswer(sd, reflect.DeepEqual(x, y), rt.ShapeEqual(x, y), o.Overlaps(0, 1), s0 == rt.NewObs().Observe(vx))`, g.qn, i)
-	g.reg("clone", 1, body)
+	g.creg("clone", 1, body)
 	for _, a := range g.pool {
-		g.ow.op("clone", g.tn, g.vg.Inst(a).Wire())
+		g.cop("clone", g.tn, g.vg.Inst(a).Wire())
 		if nv, changed := g.withNaNKeysN(g.t, a, 2, 1); changed {
-			g.ow.op("clone", g.tn, g.vg.Inst(nv).Wire())
+			g.cop("clone", g.tn, g.vg.Inst(nv).Wire())
 			g.stats["c05:clone-nan-key-source"]++
 		}
 		if nv, changed := g.withNaNLeaves(g.t, a, &g.nanSeq); changed {
-			g.ow.op("clone", g.tn, g.vg.Inst(nv).Wire())
+			g.cop("clone", g.tn, g.vg.Inst(nv).Wire())
 			g.stats["c05:clone-nan-leaf-source"]++
+		}
+		if nv, changed := g.withDeepPtrs(g.t, a, true); changed {
+			g.cop("clone", g.tn, g.vg.Inst(nv).Wire())
+			g.stats["c05:clone-ptrptr-source"]++
 		}
 	}
 	g.withMutations(func(x, mu *ty.Val) {
-		g.ow.op("clone", g.tn, mu.Wire())
+		g.cop("clone", g.tn, mu.Wire())
 	})
 }
 
@@ -741,7 +833,17 @@ func main() {
 	must(err)
 	g := &G{env: env, vg: gen.NewVGen(env, rng, cap), ow: &opw{f: opsf, n: map[string]int{}}, m: &m, stats: map[string]int{}}
 
-	for i, t := range c.Types {
+	// maps with pointer keys: for the copy plugins only (Equal / Compare / Hash on them: known finding F87), after the
+	// modelled types
+	all := c.Types
+	if (want["deepcopy"] || want["clone"]) && !want["equal"] && !want["compare"] && !want["hash"] {
+		all = append(append([]*ty.Ty(nil), all...), gen.PointerKeyed()...)
+	}
+	for i, t := range all {
+		g.keyed = i >= len(c.Types)
+		if g.keyed {
+			g.stats["c05:pointer-keyed-types"]++
+		}
 		g.i, g.t, g.tn = i, t, fmt.Sprintf("T%d", i)
 		fmt.Fprintf(&prelude, "ty %s %s\n", g.tn, t.Wire())
 		g.gt = t.Go(env, "main")
@@ -765,10 +867,10 @@ func main() {
 			// a user Equal that is coarser than the structure obliges the user to declare Hash as well
 			g.emitHash(eq && gen.MethodsAgree(env, t, "E", "H"))
 		}
-		if want["deepcopy"] && gen.SupportedDeepCopy(env, t) {
+		if want["deepcopy"] && (g.keyed || gen.SupportedDeepCopy(env, t)) {
 			g.emitDeepCopy()
 		}
-		if want["clone"] && gen.SupportedClone(env, t) {
+		if want["clone"] && (g.keyed || gen.SupportedClone(env, t)) {
 			g.emitClone()
 		}
 	}
